@@ -35,6 +35,7 @@ func Gen(t *rapid.T) *Case {
 		if gateCase && rapid.Bool().Draw(t, "gate") {
 			h.Gate = true
 		}
+		h.Replay = !h.Ctx && rapid.IntRange(0, 2).Draw(t, "replaySub") == 0
 		c.Handlers = append(c.Handlers, h)
 	}
 	// keep the total number of invocations bounded
